@@ -947,7 +947,8 @@ def p8(e: Engine, rep: Report):
 
     class _Once(int):
         pass
-    for fn in [rctx.func.node]:
+    qc = common.merged_class(e, 'slimta.queue.Queue')
+    for fn in [m.node for _, m in sorted(qc.methods.items())]:
         for x in ast.walk(fn):
             if isinstance(x, ast.Assign) and isinstance(x.value, ast.Call) \
                     and isinstance(x.value.func, ast.Attribute) and \
